@@ -165,11 +165,6 @@ func main() {
 	ds := hx.NewStream("draw", "model.Colour model.Sgr model.Term model.TermCheck model.TermDraw", "wdraw_case",
 		"c05_wdraw_mismatches", "c05_wdraw_violations")
 	ds.ShardMax = 40
-	ds.Known = "c05_wdraw_known"
-	ds.KnownClass = "draw-empty-window"
-	// windows without a cell (the proposed finding draw-empty-window: Draw panics or leaves a
-	// terminal of width 0) are generated only on request, until the finding is recorded
-	emptyWindows := os.Getenv("C05_EMPTY_WINDOWS") == "1"
 	os.Unsetenv("COLORTERM")
 	fc := hx.NewFakeConsole(hx.ProfileFromMask(0, hostRows, hostCols))
 	vx, err := vaxis.New(vaxis.Options{WithConsole: fc, NoSignals: true})
@@ -196,7 +191,8 @@ func main() {
 				if nDraw%9 == 0 && last.Cols <= hostCols-winCol && last.Rows <= hostRows-winRow {
 					mode = 0
 				}
-				if emptyWindows && nDraw%15 == 0 {
+				if nDraw%15 == 0 {
+					// a window without a cell: Draw has to leave everything alone
 					mode = 2
 				}
 				win := hostWindow(cfg.Rand, vx.Window(), last.Cols, last.Rows, mode)
@@ -210,22 +206,22 @@ func main() {
 				dj.Chain, dj.Focused = chain, focused
 				dj.Resized = w != last.Cols || h != last.Rows
 				if panicked {
+					// (also shipped as a case with outcome 1: the model never predicts a panic)
 					dj.Panic = msg
 					r.Dead = true
-					if w >= 1 && h >= 1 {
-						direct = append(direct, hx.DirectViolation{Class: "draw-panic", Case: dj, What: msg})
-						drawObs = ""
-					} else {
-						// class draw-empty-window: the model has to predict the panic
-						drawObs = "(1, mkObs 1 0 0 0 0 false 0 0 0 0 0 [] [] None, (false, 0, 0), [])"
-					}
+					direct = append(direct, hx.DirectViolation{Class: "draw-panic", Case: dj, What: msg})
+					drawObs = "(1, mkObs 1 0 0 0 0 false 0 0 0 0 0 [] [] None, (false, 0, 0), [])"
 				}
 				if drawObs != "" {
 					drawObs = hostTerm + ",\n " + drawObs
 				}
 				if w < 1 || h < 1 {
-					// the terminal is not usable afterwards: its history ends before the Draw
-					r.Dead = true
+					// nothing happened; should the terminal have been resized all the same, its
+					// history ends before the Draw (the draw case reports it)
+					if o := r.Observe(); o.Cols != last.Cols || o.Rows != last.Rows {
+						r.Dead = true
+					}
+					dj.Resized = false
 				} else if !panicked && dj.Resized {
 					// Draw resized the terminal: that is one more step of the history
 					r.Steps = append(r.Steps, termhx.Step{Resize: true, W: w, H: h, Obs: r.Observe()})
@@ -240,7 +236,7 @@ func main() {
 					}
 				}
 				if w < 1 || h < 1 {
-					dtags = append(dtags, fmt.Sprintf("empty-window-panic-%v", panicked))
+					dtags = append(dtags, "empty-window")
 				}
 				dtags = append(dtags, kind, fmt.Sprintf("resized-%v", dj.Resized), fmt.Sprintf("depth-%d", depth),
 					fmt.Sprintf("overhang-%v", overhang), fmt.Sprintf("focused-%v", focused), fmt.Sprintf("cursor-%v", dj.Visible))
